@@ -204,9 +204,10 @@ def main():
     if args and args[0] == "--setup":
         build_stubs()
         ok = True
-        pkgs = sorted({c["pkg"] for c in CHECKS.values()})
+        claimed = [c for c in CHECKS.values() if c.get("claimed")]
+        pkgs = sorted({c["pkg"] for c in claimed})
         for pkg in pkgs:
-            need_race = any(c["pkg"] == pkg and c.get("race") for c in CHECKS.values())
+            need_race = any(c["pkg"] == pkg and c.get("race") for c in claimed)
             if not build(pkg, False):
                 ok = False
             if need_race and not build(pkg, True):
